@@ -162,7 +162,17 @@ class Detector:
     @photon.setter
     def photon(self, obj: Photon) -> None:
         """Set the photon information for the detector."""
-        self.photon._array = obj._array
+        if obj is self._photon:
+            # Nothing to do (e.g. after 'detector.photon += ...')
+            return
+
+        # Use the setters of 'Photon' to validate the new content
+        if obj._array is None:
+            self.photon.empty()
+        elif isinstance(obj._array, np.ndarray):
+            self.photon.array = obj._array
+        else:
+            self.photon.array_3d = obj._array
 
     @property
     def scene(self) -> Scene:
